@@ -1,7 +1,7 @@
 /-
 Lemmas and proofs for chunk normalisation (model: Model/Chunks.lean).  Core Lean only.
 -/
-import DaskArrayModel.Model.Chunks
+import DaskArrayModel.Model.ChunksSpec
 namespace Dask.Lemmas.Chunks
 open Dask.Py Dask.Chunks
 
@@ -256,18 +256,6 @@ theorem normalizeAxis_wellformed (ai : Bool) (c : Spec) (s : Int) (hs : 0 ≤ s)
 
 /-! ### `auto_chunks` without `previous_chunks`: the byte limit under the oracle relation -/
 
-/-- ORACLE RELATION along the recursion of `autoNoPrev`: at every level that is reached, the integer part
-`isize` of the float root satisfies `isize ^ #autos * largest_block * itemsize ≤ limit`
-(true of `floor (x ** (1/k))` in exact arithmetic; checked at run time on the recovered floats). -/
-def orcOK (limit itemsize : Int) : List (Nat × Bool) → List Spec → List Int → Bool
-  | [], _, _ => true
-  | (isize, exact) :: rest, chunks, shape =>
-    decide (((isize : Int) ^ (numAutos chunks)) * largestBlock chunks * itemsize ≤ limit) &&
-    (!(anySmall isize exact chunks shape) || orcOK limit itemsize rest (fillSmall isize exact chunks shape) shape)
-
-/-- every fixed (non-auto) axis has a non-negative largest block -/
-def FixedNonneg (chunks : List Spec) : Prop := ∀ c ∈ chunks, isAuto c = false → 0 ≤ specMax c
-
 def countSmall (isize : Nat) (exact : Bool) : List Spec → List Int → Nat
   | c :: cs, s :: ss => (if isSmall isize exact c s then 1 else 0) + countSmall isize exact cs ss
   | _, _ => 0
@@ -485,15 +473,6 @@ theorem auto_limit_noprev_partial (limit itemsize : Int) (hi : 0 ≤ itemsize)
 
 /-! ### the whole of `normalize_chunks` -/
 
-/-- a valid layout of one axis: non-empty, non-negative sizes, summing to the axis length -/
-def AxisOK (l : List Int) (s : Int) : Prop := l ≠ [] ∧ (∀ x ∈ l, 0 ≤ x) ∧ isum l = s
-
-/-- one valid layout per axis (same rank) -/
-inductive AllAxesOK : List (List Int) → List Int → Prop
-  | nil : AllAxesOK [] []
-  | cons {l : List Int} {s : Int} {ls : List (List Int)} {ss : List Int} :
-      AxisOK l s → AllAxesOK ls ss → AllAxesOK (l :: ls) (s :: ss)
-
 theorem fillSmall_length (i : Nat) (e : Bool) (chunks : List Spec) (shape : List Int) :
     (fillSmall i e chunks shape).length = chunks.length := by
   induction chunks generalizing shape with
@@ -672,11 +651,6 @@ theorem normalizeChunks_wellformed (orc : List (Nat × Bool)) (limit : Option In
           exact finalize_wf c2 shape out hl2 hsh h
 
 /-! ### from the `auto_chunks` bound to the largest block of the returned layout -/
-
-/-- number of elements of the largest block of a layout: `∏ max(axis chunks)` -/
-def blockElems : List (List Int) → Int
-  | [] => 1
-  | l :: ls => imax l * blockElems ls
 
 theorem imax_mem (l : List Int) (hne : l ≠ []) : imax l ∈ l := by
   induction l with
@@ -901,5 +875,125 @@ theorem normalize_auto_limit_noprev_partial (limit itemsize : Int) (hi : 0 ≤ i
                 cases h
                 obtain ⟨b0, b1⟩ := convertAll_block_le c2 shape out f1 hsh f2 f3 hconv h1 h2
                 exact Int.le_trans (Int.mul_le_mul_of_nonneg_right b1 hi) f4
+
+/-! ### the greedy merge of `previous_chunks` (integer kernel of the `previous_chunks` branch) -/
+
+theorem mergeLoop_spec (pf B : Int) (prev : List Int) (new : Int)
+    (hp : ∀ c ∈ prev, 0 ≤ c ∧ c ≤ B) (hn0 : 0 ≤ new) (hnB : new ≤ B) (hpf : pf ≤ B) :
+    isum (mergeLoop pf new prev) = new + isum prev ∧
+    (∀ x ∈ mergeLoop pf new prev, 0 < x ∧ x ≤ B) := by
+  induction prev generalizing new with
+  | nil =>
+    simp only [mergeLoop, isum]
+    by_cases h : new > 0
+    · simp only [h, if_true]
+      exact ⟨by simp [isum], fun x hx => by simp at hx; omega⟩
+    · simp only [h, if_false]
+      exact ⟨by simp [isum]; omega, fun x hx => by simp at hx⟩
+  | cons c cs ih =>
+    have hc := hp c List.mem_cons_self
+    have hp' : ∀ c ∈ cs, 0 ≤ c ∧ c ≤ B := fun x hx => hp x (List.mem_cons_of_mem _ hx)
+    simp only [mergeLoop, isum]
+    by_cases h : c + new ≤ pf
+    · simp only [h, if_true]
+      obtain ⟨i1, i2⟩ := ih (new + c) hp' (by omega) (by omega)
+      exact ⟨by omega, i2⟩
+    · simp only [h, if_false]
+      obtain ⟨i1, i2⟩ := ih c hp' hc.1 hc.2
+      rw [isum_append, i1]
+      by_cases hn : new > 0
+      · simp only [hn, if_true, isum]
+        refine ⟨by omega, fun x hx => ?_⟩
+        rcases List.mem_append.mp hx with hx | hx
+        · simp at hx; omega
+        · exact i2 x hx
+      · simp only [hn, if_false, isum]
+        refine ⟨by omega, fun x hx => ?_⟩
+        rcases List.mem_append.mp hx with hx | hx
+        · simp at hx
+        · exact i2 x hx
+
+/-- merging previous chunks keeps the axis length, produces only positive blocks, and no block exceeds
+`max (floor proposed) (largest previous chunk)` (any common bound `B`). -/
+theorem mergePrev_spec (pf B : Int) (prev : List Int) (hp : ∀ c ∈ prev, 0 ≤ c ∧ c ≤ B) (hB : 0 ≤ B) (hpf : pf ≤ B) :
+    isum (mergePrev pf prev) = isum prev ∧ (∀ x ∈ mergePrev pf prev, 0 < x ∧ x ≤ B) := by
+  have := mergeLoop_spec pf B prev 0 hp (by omega) hB hpf
+  unfold mergePrev
+  exact ⟨by omega, this.2⟩
+
+/-! ### fuel: `#autos` oracle entries always suffice (every level removes at least one auto axis) -/
+
+theorem numAutos_fillSmall (i : Nat) (e : Bool) (chunks : List Spec) (shape : List Int) :
+    numAutos (fillSmall i e chunks shape) + countSmall i e chunks shape = numAutos chunks ∧
+    (anySmall i e chunks shape = true → 1 ≤ countSmall i e chunks shape) := by
+  induction chunks generalizing shape with
+  | nil => cases shape <;> simp [fillSmall, countSmall, anySmall, numAutos]
+  | cons c cs ih =>
+    cases shape with
+    | nil => simp [fillSmall, countSmall, anySmall]
+    | cons s ss =>
+      obtain ⟨i1, i2⟩ := ih ss
+      simp only [fillSmall, countSmall, anySmall, numAutos_cons]
+      cases hsm : isSmall i e c s with
+      | true =>
+        have ha := (isSmall_le i e c s hsm).1
+        have hb : isAuto (Spec.tuple [s]) = false := rfl
+        simp only [if_true, ha, hb, Bool.false_eq_true, if_false]
+        exact ⟨by omega, fun _ => by omega⟩
+      | false =>
+        simp only [Bool.false_eq_true, if_false, Bool.false_or]
+        exact ⟨by omega, fun h => by have := i2 h; omega⟩
+
+theorem fillRound_not_exhausted (i : Nat) (e : Bool) (chunks : List Spec) (shape : List Int) :
+    fillRound i e chunks shape ≠ .error .oracleExhausted := by
+  induction chunks generalizing shape with
+  | nil => simp [fillRound, pure, Except.pure]
+  | cons c cs ih =>
+    cases shape with
+    | nil => simp [fillRound, pure, Except.pure]
+    | cons s ss =>
+      intro h
+      simp only [fillRound, bind, Except.bind] at h
+      split at h
+      · rename_i err herr
+        cases h
+        cases ha : isAuto c with
+        | true =>
+          rw [ha] at herr
+          simp only [if_true] at herr
+          unfold roundToF at herr
+          split at herr
+          · simp [Except.map] at herr
+          · split at herr <;> simp [Except.map] at herr
+        | false => rw [ha] at herr; simp [pure, Except.pure] at herr
+      · split at h
+        · rename_i err herr
+          cases h; exact ih ss herr
+        · simp [pure, Except.pure] at h
+
+theorem autoNoPrev_fuel (orc : List (Nat × Bool)) (chunks : List Spec) (shape : List Int)
+    (hfuel : numAutos chunks ≤ orc.length) : autoNoPrev orc chunks shape ≠ .error .oracleExhausted := by
+  induction orc generalizing chunks with
+  | nil =>
+    have h0 : numAutos chunks = 0 := by simpa using hfuel
+    rw [autoNoPrev.eq_1]; simp [h0]
+  | cons o rest ih =>
+    obtain ⟨i, e⟩ := o
+    rw [autoNoPrev.eq_def]
+    simp only
+    split
+    · simp
+    · split
+      · simp
+      · split
+        · simp
+        · split
+          · rename_i hsm
+            obtain ⟨n1, n2⟩ := numAutos_fillSmall i e chunks shape
+            have := n2 hsm
+            apply ih
+            simp only [List.length_cons] at hfuel
+            omega
+          · exact fillRound_not_exhausted _ _ _ _
 
 end Dask.Lemmas.Chunks
